@@ -31,3 +31,28 @@ PROPS["C28"] = {
         },
     ],
 }
+
+PROPS["C14"] = {
+    "functions": ["syscall::sleep (SleepSyscallFacade -> NioSleepSyscall)", "syscall::usleep", "syscall::nanosleep",
+                  "syscall::poll (NioPollSyscall loop)", "syscall::select (NioSelectSyscall loop)",
+                  "syscall::pthread_cond_timedwait (NioPthreadCondTimedwaitSyscall loop)"],
+    "bounds": "sleep/usleep/nanosleep: loop-free, every argument value. poll: 0 <= timeout <= 64 ms (unwind 12). "
+              "select: tv_sec = 0, 0 <= tv_usec <= 64000, and negative fields in [-2,0]. pthread_cond_timedwait: "
+              "clock < 4 s, deadline within 25 ms of now or in the past (unwind 6). Slack per wait eps in [0, 1 ms].",
+    "outside": "timeouts beyond the bounds (the slice loops are uniform in the timeout; the unit conversion is scale free); "
+               "the coroutine-caller branch of the facade; real scheduling slack; poll(INT_MAX) treated as infinite.",
+    "assumptions": [
+        "common::now is a stub over a virtual clock (time is a symbolic variable)",
+        "EventLoops::wait_event(d) is replaced by its contract: returns after d + eps, eps arbitrary in [0, 1 ms]",
+        "the raw libc function is a scripted kernel reporting 'nothing ready' (or ready at the k-th probe)",
+    ],
+    "groups": [
+        {
+            "mounts": [("c14_timed.rs", "syscall/unix/mod.rs")],
+            "harnesses": ["c14_sleep_all_secs", "c14_usleep_all_micros", "c14_nanosleep_all_timespec",
+                          "c14_poll_timeout_le_64ms", "c14_poll_ready_returns_result", "c14_select_timeout_unit", "c14_select_timeout_le_64ms",
+                          "c14_select_invalid_timeval", "c14_cond_timedwait_deadline"],
+            "timeout": 300,
+        },
+    ],
+}
